@@ -34,17 +34,18 @@ Theorem C10_yang_text_roundtrip_dquoted :
 Proof. exact text_roundtrip_dq. Qed.
 Print Assumptions C10_yang_text_roundtrip_dquoted.
 
-(* ylexable holds for the RFC 3629 encoding of every sequence of characters that ly_getutf8() and
-   is_yangutf8char() accept: all yang-char of RFC 7950 except plane 4 (C10_yang_char_plane4_refuted). *)
+(* ylexable holds for the RFC 3629 encoding of every sequence of yang-char of RFC 7950 section 14: these are exactly
+   the characters that ly_getutf8() and is_yangutf8char() accept (C10_yang_char_spec; since /repo commits f25b870
+   and d2cc93f). *)
 Theorem C10_yang_text_roundtrip_unicode :
   forall shrink level name cps single_line single_quoted c rest,
     let s := flat_map utf8_encode cps in
-    no_byte 10 name = true -> forallb lexer_accepts_char cps = true -> is_term c = true ->
+    no_byte 10 name = true -> forallb is_yang_char cps = true -> is_term c = true ->
     rt_hyp single_quoted s = true ->
     print_then_lex shrink level name s single_line single_quoted (c :: rest) = Ok (s, c :: rest).
 Proof.
   exact (fun shrink level name cps sl sq c rest Hn Hc Ht Hh =>
-           text_roundtrip shrink level name _ sl sq c rest Hn (ylexable_encoded cps Hc) Ht Hh).
+           text_roundtrip shrink level name _ sl sq c rest Hn (ylexable_encoded cps (forallb_lexer_accepts cps Hc)) Ht Hh).
 Qed.
 Print Assumptions C10_yang_text_roundtrip_unicode.
 
@@ -127,20 +128,20 @@ Proof.
 Qed.
 Print Assumptions C10_yang_text_roundtrip_squote_newline_refuted.
 
-(* The lexer's character test departs from RFC 7950 yang-char exactly on plane 4 (U+40000..U+4FFFF),
-   which it rejects. *)
-Theorem C10_yang_char_plane4_refuted :
-  exists c, is_yang_char c = true /\ is_yangutf8char c = false /\ ylexable (utf8_encode c) = false.
-Proof. exists 262144. destruct plane4_witness as (H1 & _ & H3 & H4). auto. Qed.
-Print Assumptions C10_yang_char_plane4_refuted.
-
+(* The lexer's character test is the RFC 7950 yang-char rule. (Until /repo commit f25b870 it rejected plane 4,
+   U+40000..U+4FFFD; C10_yang_char_plane4_regression keeps the former witnesses.) *)
 Theorem C10_yang_char_spec :
-  forall c, c < 1114112 ->
-    is_yangutf8char c = is_yang_char c && negb (in_rng 262144 327679 c).
+  forall c, c < 1114112 -> is_yangutf8char c = is_yang_char c.
 Proof.
   exact (fun c Hc => proj1 (Bool.eqb_true_iff _ _) (N_all_below_spec _ _ yangutf8char_spec c Hc)).
 Qed.
 Print Assumptions C10_yang_char_spec.
+
+Theorem C10_yang_char_plane4_regression :
+  is_yang_char 262144 = true /\ is_yangutf8char 262144 = true /\ is_yangutf8char 327677 = true /\
+  ylexable (utf8_encode 262144) = true /\ ylexable (utf8_encode 324989) = true /\ is_yangutf8char 327678 = false.
+Proof. exact plane4_witness. Qed.
+Print Assumptions C10_yang_char_plane4_regression.
 
 (* The hypotheses are satisfiable by a non-trivial text (both quote kinds, backslash, tabs, empty lines,
    leading blanks, blanks before a newline, final blanks, 2-, 3-, 4-byte characters), at two indentation
